@@ -10,6 +10,7 @@ pub use cglue::trait_group;
 pub mod corpus;
 pub mod corpus2;
 pub mod corpus3;
+pub mod corpus4;
 
 pub mod c01;
 pub mod c02;
@@ -18,6 +19,7 @@ pub mod c06;
 pub mod c07;
 pub mod c08;
 pub mod c08x;
+pub mod c_r7;
 pub mod c13e;
 
-pub const TABLES: &[&[(&str, fn())]] = &[c01::TABLE, c02::TABLE, c13e::TABLE, c04::TABLE, c06::TABLE, c07::TABLE, c08::TABLE, c08x::TABLE];
+pub const TABLES: &[&[(&str, fn())]] = &[c01::TABLE, c02::TABLE, c13e::TABLE, c04::TABLE, c06::TABLE, c07::TABLE, c08::TABLE, c08x::TABLE, c_r7::TABLE];
